@@ -16,9 +16,13 @@
  *
  * File position P = BS * (index of the block being filled) + its fill.
  *
- *  ensures  C01.bp.append_safe   every pointer the loop forms is valid for
+ *  ensures  C01.bp.append_safe   every copy stays inside the block's BS
+ *              payload bytes and inside the caller's [data, data + size) for
  *              every (size, data, current block) - incl. size 0 without a
- *              current block (CBMC memory checks + the stub preconditions)
+ *              current block. Both ranges are checked arithmetically at the
+ *              copy (payload and buffer are address ranges anchored at small
+ *              objects, see w14_bp_model.h; --pointer-overflow-check is off
+ *              for this harness, all other cbmc memory checks are on)
  *           C01.bp.bytes_in_order  the k-th copy takes the input bytes
  *              [done, done + n) - no gap, no overlap - and puts them at
  *              in-block offset P % BS of the block with index P / BS,
